@@ -1,46 +1,22 @@
-(* C20 — DNS64 synthesis: the property theorems.  Statements only; every
-   proof is `exact <lemma>` into Proofs_*.v.  [cur] is the model of the tree
-   as it is; a [variant] with a flag set models the corresponding hunk of
-   props/C20/fix.patch.  Examples showing that the hypotheses are
-   inhabited are in Proofs_examples.v. *)
+(* C20 — DNS64 synthesis: the property theorems, about the tree as it is
+   ([cur], after fix 3d56ccc).  Statements only; every proof is
+   `exact <lemma>` into Proofs_*.v.  The three statements that were refuted
+   before the repair (extract_embed, owner_and_ttl, never_ad) now hold at
+   full strength; the old counterexamples survive as Examples about the
+   [old] variant in Proofs_examples.v, where the Examples showing that the
+   hypotheses are inhabited live as well. *)
 From Coq Require Import String Ascii.
 From Sdns Require Import Common.Base Gen.C20 C20.Model C20.Spec
   C20.Proofs_gen C20.Proofs_embed C20.Proofs_ptr C20.Proofs_serve.
 Open Scope N_scope.
 
 (* ------------------------------------------------------------------ *)
-(* RFC 6052: extract (embed) — all six lengths, all prefixes, all IPv4.
-   Full statement:
-     forall p v4, wf_prefix p -> length v4 = 4 -> extract cur p (embed p v4) = Some v4.
-   It is FALSE of the current tree (extract_embed_refuted): the embedded
-   address can have ::ffff:a.b.c.d form under an all-zero /56 or /64 prefix
-   and net.IPNet.Contains then compares 4 bytes with 16.  Proved: away from
-   that corner (two forms), and without side condition for fix.patch hunk 3. *)
-Theorem extract_embed_partial :
-  forall p v4, wf_prefix p -> length v4 = 4%nat -> quirk p v4 = false ->
-  extract cur p (embed p v4) = Some v4.
-Proof. exact extract_embed_cur. Qed.
-Print Assumptions extract_embed_partial.
-
-Theorem extract_embed_nonzero_prefix_partial :
-  forall p v4, wf_prefix p -> length v4 = 4%nat -> all_zero (firstn 7 (n_ip p)) = false ->
-  extract cur p (embed p v4) = Some v4.
-Proof. exact Proofs_embed.extract_embed_partial. Qed.
-Print Assumptions extract_embed_nonzero_prefix_partial.
-
-Theorem extract_embed_refuted :
-  let p := mk_net (zeros 16) 56 16 in
-  let v4 := [0; 0; 255; 255] in
-  wf_prefix p /\ length v4 = 4%nat /\ embed p v4 = [0;0;0;0;0;0;0;0;0;0;255;255;0;0;0;0]
-  /\ extract cur p (embed p v4) = None.
-Proof. exact extract_embed_witness. Qed.
-Print Assumptions extract_embed_refuted.
-
-Theorem extract_embed_fixed :
-  forall v p v4, fx_contains v = true -> wf_prefix p -> length v4 = 4%nat ->
-  extract v p (embed p v4) = Some v4.
-Proof. exact Proofs_embed.extract_embed_fixed. Qed.
-Print Assumptions extract_embed_fixed.
+(* RFC 6052: extract (embed) — all six lengths, all prefixes, all 2^32 IPv4
+   addresses, symbolic in the bytes *)
+Theorem extract_embed :
+  forall p v4, wf_prefix p -> length v4 = 4%nat -> extract cur p (embed p v4) = Some v4.
+Proof. exact extract_embed_now. Qed.
+Print Assumptions extract_embed.
 
 (* the layout: RFC 6052 2.2 octet positions, u octet zero, prefix kept, suffix zero *)
 Theorem embed_layout :
@@ -57,47 +33,49 @@ Print Assumptions embed_layout.
 Theorem extract_only_embeddings :
   forall p a v4, wf_prefix p -> bytes_ok (n_ip p) -> length a = 16%nat -> bytes_ok a ->
   extract cur p a = Some v4 -> a = embed p v4 /\ length v4 = 4%nat.
-Proof. exact extract_sound_cur. Qed.
+Proof. exact extract_sound_now. Qed.
 Print Assumptions extract_only_embeddings.
 
 Theorem extract_rejects_nonconformant :
   forall p a, wf_prefix p -> bytes_ok (n_ip p) -> length a = 16%nat -> bytes_ok a ->
   nthb a 8 <> 0 \/ all_zero (skipn (suffix_start (n_ones p)) a) = false ->
   extract cur p a = None.
-Proof. exact extract_rejects_u_or_suffix. Qed.
+Proof. exact extract_rejects_u_or_suffix_now. Qed.
 Print Assumptions extract_rejects_nonconformant.
 
 (* ------------------------------------------------------------------ *)
 (* PTR: the ip6.arpa name of an embedded address parses back to it and
    extraction returns the IPv4 address; handlePTR then answers with the
-   in-addr.arpa name, which reads back as the same four octets. *)
+   in-addr.arpa name, which reads back as the same four octets; and what
+   handlePTR translates is an embedding under a configured prefix. *)
 Theorem arpa_name_parses :
   forall a, length a = 16%nat -> bytes_ok a -> parse_ip6_arpa (arpa_name a) = Some a.
 Proof. exact parse_arpa_name. Qed.
 Print Assumptions arpa_name_parses.
 
 Theorem ptr_roundtrip :
-  forall v p v4, wf_prefix p -> bytes_ok (n_ip p) -> length v4 = 4%nat -> bytes_ok v4 ->
-  (fx_contains v = true \/ (v = cur /\ quirk p v4 = false)) ->
+  forall p v4, wf_prefix p -> bytes_ok (n_ip p) -> length v4 = 4%nat -> bytes_ok v4 ->
   match parse_ip6_arpa (arpa_name (embed p v4)) with
-  | Some addr => extract v p addr
+  | Some addr => extract cur p addr
   | None => None
   end = Some v4.
-Proof. exact ptr_roundtrip_lem. Qed.
+Proof. exact ptr_roundtrip_now. Qed.
 Print Assumptions ptr_roundtrip.
 
 Theorem ptr_handler_roundtrip :
-  forall v c cp v4, c_prefixes c = [cp] -> wf_prefix (cp_net cp) -> bytes_ok (n_ip (cp_net cp)) ->
+  forall c cp v4, c_prefixes c = [cp] -> wf_prefix (cp_net cp) -> bytes_ok (n_ip (cp_net cp)) ->
   length v4 = 4%nat -> bytes_ok v4 -> should_exclude_a c v4 cp = false ->
-  (fx_contains v = true \/ (v = cur /\ quirk (cp_net cp) v4 = false)) ->
-  ptr_target v c (lower (arpa_name (embed (cp_net cp) v4))) = Some v4.
-Proof. exact ptr_target_roundtrip. Qed.
+  ptr_target cur c (lower (arpa_name (embed (cp_net cp) v4))) = Some v4.
+Proof. exact ptr_target_roundtrip_now. Qed.
 Print Assumptions ptr_handler_roundtrip.
 
 Theorem ptr_target_sound :
-  forall v c addr ps v4, ptr_find v c addr ps = Some v4 ->
-  exists p, In p ps /\ extract v (cp_net p) addr = Some v4 /\ should_exclude_a c v4 p = false.
-Proof. exact ptr_find_sound. Qed.
+  forall c addr ps v4,
+  Forall (fun p => wf_prefix (cp_net p) /\ bytes_ok (n_ip (cp_net p))) ps ->
+  length addr = 16%nat -> bytes_ok addr ->
+  ptr_find cur c addr ps = Some v4 ->
+  exists p, In p ps /\ addr = embed (cp_net p) v4 /\ length v4 = 4%nat /\ should_exclude_a c v4 p = false.
+Proof. exact ptr_find_embedding. Qed.
 Print Assumptions ptr_target_sound.
 
 Theorem in_addr_arpa_roundtrip :
@@ -135,18 +113,18 @@ Print Assumptions compiled_prefixes_legal.
    EDE 13), not a request-local failure, not a locally enforced work-limit
    SERVFAIL, and (if NOERROR) without a usable native AAAA *)
 Theorem synth_only_when :
-  forall v cf q down work al,
-  x_path (serve v cf q down work al) = PSynth \/ (x_aq (serve v cf q down work al) = true /\ q_type q = type_aaaa) ->
+  forall cf q down work al,
+  x_path (serve cur cf q down work al) = PSynth \/ (x_aq (serve cur cf q down work al) = true /\ q_type q = type_aaaa) ->
   gates_open (compile cf) q = true /\ q_type q = type_aaaa
   /\ zone_excluded (compile cf) (lower (q_name q)) = false
   /\ exists m mark, down = Some (m, mark) /\ down_allows (compile cf) m mark work = true.
-Proof. exact synth_only_when_lem. Qed.
+Proof. exact (synth_only_when_lem cur). Qed.
 Print Assumptions synth_only_when.
 
 Theorem synth_needs_a_records :
-  forall v cf q down work al, x_path (serve v cf q down work al) = PSynth ->
+  forall cf q down work al, x_path (serve cur cf q down work al) = PSynth ->
   exists ar, al = QResp ar /\ m_rcode ar = 0 /\ exists o t ip, In (RA o t ip) (m_answer ar).
-Proof. exact synth_needs_a_answer. Qed.
+Proof. exact (synth_needs_a_answer cur). Qed.
 Print Assumptions synth_needs_a_records.
 
 (* the EDE codes the dispatch treats as validation failures are the RFC 8914 ones *)
@@ -160,104 +138,60 @@ Print Assumptions dnssec_failure_codes_are_rfc8914.
    a legal configured prefix, owned like that A record, never an excluded
    IPv4 address under the well-known prefix; every allowed pair is present *)
 Theorem wkp_exclusions :
-  forall v cf q m mark work ar r o t e,
-  x_path (serve v cf q (Some (m, mark)) work (QResp ar)) = PSynth ->
-  x_reply (serve v cf q (Some (m, mark)) work (QResp ar)) = Some r ->
+  forall cf q m mark work ar r o t e,
+  x_path (serve cur cf q (Some (m, mark)) work (QResp ar)) = PSynth ->
+  x_reply (serve cur cf q (Some (m, mark)) work (QResp ar)) = Some r ->
   In (RAAAA o t e) (r_answer r) ->
   (exists p ta ip v4,
       In p (c_prefixes (compile cf)) /\ In (RA o ta ip) (m_answer ar) /\ to4 ip = Some v4
       /\ e = embed (cp_net p) v4
       /\ (is_well_known (cp_net p) = true -> existsb (fun n => net_contains n v4) (c_excl_a (compile cf)) = false))
   /\ (forall o' ta ip, In (RA o' ta ip) (m_answer ar) -> t <= ta)
-  /\ t <= ttl_ceiling v (m_ns m).
-Proof. exact synthesised_aaaa_sound. Qed.
+  /\ t <= ttl_ceiling cur (m_ns m).
+Proof. exact (synthesised_aaaa_sound cur). Qed.
 Print Assumptions wkp_exclusions.
 
 Theorem synth_complete :
-  forall v cf q m mark work ar r p o ta ip v4,
-  x_path (serve v cf q (Some (m, mark)) work (QResp ar)) = PSynth ->
-  x_reply (serve v cf q (Some (m, mark)) work (QResp ar)) = Some r ->
+  forall cf q m mark work ar r p o ta ip v4,
+  x_path (serve cur cf q (Some (m, mark)) work (QResp ar)) = PSynth ->
+  x_reply (serve cur cf q (Some (m, mark)) work (QResp ar)) = Some r ->
   In p (c_prefixes (compile cf)) -> In (RA o ta ip) (m_answer ar) -> to4 ip = Some v4 ->
   should_exclude_a (compile cf) v4 p = false ->
   exists t, In (RAAAA o t (embed (cp_net p) v4)) (r_answer r).
-Proof. exact synthesised_aaaa_complete. Qed.
+Proof. exact (synthesised_aaaa_complete cur). Qed.
 Print Assumptions synth_complete.
 
 (* ------------------------------------------------------------------ *)
-(* owner and TTL.  Full statement (v = cur, no hypothesis on the SOA):
-     every synthesised AAAA is owned by an A record's owner, its TTL is at
-     most every A TTL and at most the AAAA negative TTL
-     min(SOA TTL, SOA MINIMUM) (600 without SOA).
-   FALSE of the current tree for SOA TTL 0 / MINIMUM 0 (DESIGN F7):
-   owner_and_ttl_refuted.  Proved for SOAs with positive TTL and MINIMUM,
-   and without hypothesis for fix.patch hunk 1. *)
-Theorem owner_and_ttl_partial :
+(* owner and TTL: every synthesised AAAA is owned by an A record's owner, its
+   TTL is at most every A TTL and at most the AAAA negative TTL
+   min(SOA TTL, SOA MINIMUM) (600 s without SOA) — zero included *)
+Theorem owner_and_ttl :
   forall cf q m mark work ar r o t e,
-  soa_positive m ->
   x_path (serve cur cf q (Some (m, mark)) work (QResp ar)) = PSynth ->
   x_reply (serve cur cf q (Some (m, mark)) work (QResp ar)) = Some r ->
   In (RAAAA o t e) (r_answer r) ->
   (exists ta ip, In (RA o ta ip) (m_answer ar))
   /\ (forall o' ta ip, In (RA o' ta ip) (m_answer ar) -> t <= ta)
   /\ t <= spec_negative_ttl m.
-Proof. exact owner_and_ttl_partial_lem. Qed.
-Print Assumptions owner_and_ttl_partial.
-
-Theorem owner_and_ttl_refuted :
-  exists cf q m mark work ar r o t e,
-    x_path (serve cur cf q (Some (m, mark)) work (QResp ar)) = PSynth
-    /\ x_reply (serve cur cf q (Some (m, mark)) work (QResp ar)) = Some r
-    /\ In (RAAAA o t e) (r_answer r)
-    /\ spec_negative_ttl m < t.
-Proof. exact owner_and_ttl_refuted_lem. Qed.
-Print Assumptions owner_and_ttl_refuted.
-
-Theorem owner_and_ttl_fixed :
-  forall v cf q m mark work ar r o t e,
-  fx_negttl v = true ->
-  x_path (serve v cf q (Some (m, mark)) work (QResp ar)) = PSynth ->
-  x_reply (serve v cf q (Some (m, mark)) work (QResp ar)) = Some r ->
-  In (RAAAA o t e) (r_answer r) ->
-  (exists ta ip, In (RA o ta ip) (m_answer ar))
-  /\ (forall o' ta ip, In (RA o' ta ip) (m_answer ar) -> t <= ta)
-  /\ t <= spec_negative_ttl m.
-Proof. exact owner_and_ttl_fixed_lem. Qed.
-Print Assumptions owner_and_ttl_fixed.
+Proof. exact owner_and_ttl_now. Qed.
+Print Assumptions owner_and_ttl.
 
 Theorem owner_follows_chain :
-  forall v cf q m mark work ar r o t e,
+  forall cf q m mark work ar r o t e,
   (forall o' ta ip, In (RA o' ta ip) (m_answer ar) -> o' = chain_terminal 16 (q_name q) (m_answer ar)) ->
-  x_path (serve v cf q (Some (m, mark)) work (QResp ar)) = PSynth ->
-  x_reply (serve v cf q (Some (m, mark)) work (QResp ar)) = Some r ->
+  x_path (serve cur cf q (Some (m, mark)) work (QResp ar)) = PSynth ->
+  x_reply (serve cur cf q (Some (m, mark)) work (QResp ar)) = Some r ->
   In (RAAAA o t e) (r_answer r) ->
   o = chain_terminal 16 (q_name q) (m_answer ar).
-Proof. exact owner_follows_chain_lem. Qed.
+Proof. exact (owner_follows_chain_lem cur). Qed.
 Print Assumptions owner_follows_chain.
 
 (* ------------------------------------------------------------------ *)
-(* never AD.  Full statement (v = cur): a reply that is not the very message
-   the next handler wrote — synthesised, AAAA-filtered, built from the A
-   response, a PTR translation or a local SERVFAIL — has AD clear.
-   FALSE of the current tree on the fall-back path after stripping
-   (never_ad_refuted); proved for every other path, and for all paths with
-   fix.patch hunk 2. *)
-Theorem never_ad_partial :
+(* never AD: a reply that is not the very message the next handler wrote —
+   synthesised, AAAA-filtered (passed on or fallen back to), built from the A
+   response, a PTR translation or a local SERVFAIL — has AD clear *)
+Theorem never_ad :
   forall cf q down work al r,
-  x_reply (serve cur cf q down work al) = Some r -> r_same r = false ->
-  x_path (serve cur cf q down work al) <> PFallback ->
-  r_ad r = false.
-Proof. exact never_ad_partial_lem. Qed.
-Print Assumptions never_ad_partial.
-
-Theorem never_ad_refuted :
-  exists cf q down work al r,
-    x_reply (serve cur cf q down work al) = Some r /\ r_same r = false /\ r_ad r = true.
-Proof. exact never_ad_refuted_lem. Qed.
-Print Assumptions never_ad_refuted.
-
-Theorem never_ad_fixed :
-  forall v cf q down work al r,
-  fx_fallback_ad v = true ->
-  x_reply (serve v cf q down work al) = Some r -> r_same r = false -> r_ad r = false.
-Proof. exact never_ad_fixed_lem. Qed.
-Print Assumptions never_ad_fixed.
+  x_reply (serve cur cf q down work al) = Some r -> r_same r = false -> r_ad r = false.
+Proof. exact never_ad_now. Qed.
+Print Assumptions never_ad.
